@@ -100,11 +100,12 @@ func c07DataRoundTrip(k int, comp Compressor, cache *lru, loc, fragLoc int64, ha
 		}
 		vp.Assert(eof, "end of file reached")
 		vp.Assert(int64(total) == size, "exactly size bytes are delivered")
+		// one obligation for all bytes: OR of the differences over the first size bytes
+		var diff byte
 		for i := 0; i < k*c07bs+c07bs; i++ {
-			if int64(i) < size {
-				vp.Assert(out[i] == content[i], "byte i read = byte i of the source file")
-			}
+			diff |= vp.IteU8(int64(i) < size, out[i]^content[i], 0)
 		}
+		vp.Assert(diff == 0, "every byte read = the byte of the source file at the same position")
 	}
 }
 
